@@ -1,5 +1,6 @@
 import Driver.Proto
 import PdtVerif.Model.ErrorRate
+import PdtVerif.Model.ErrorRateFast
 import PdtVerif.Model.LevRow
 import PdtVerif.Spec.ErrorRate
 /-! Driver for C02: error_rate / prefix_error_rates per batch and minimum_error_rate_loss.
@@ -11,7 +12,15 @@ Every reply carries
   (brute-force enumeration of all scripts when small, the set-carrying DP otherwise; both when
   small, and they must agree);
 and the driver itself asserts what the theorems say about the model (`model ∈ [min, max]`,
-`= levUnit` after the shortcut); a failure there is an internal error, not a violation. -/
+`= levUnit` after the shortcut); a failure there is an internal error, not a violation.
+
+`big: true` in a case (reference / hypothesis dimensions of tens to hundreds of positions):
+the model is evaluated in its one-pass form (`Model/ErrorRateFast.lean`, proved equal to the
+literal model for all inputs: `C02_fast_*`) because the literal `del_mat` form is cubic per
+step on lists; the oracle is the proved set-carrying DP only (no brute force; for the per-prefix
+variant the unit-cost distance of every prefix comes from one pass of the same DP under unit
+costs instead of one `dpDist` per prefix). Without `big` BOTH forms of the model are evaluated
+and must agree. -/
 open Lean Proto PdtVerif.Lev PdtVerif.ErrorRate
 
 def getCosts (c : Json) : Except String Costs := do
@@ -38,10 +47,11 @@ structure OptInfo where
   brute : Bool
 
 /-- The oracle for one pair of cut transcripts. -/
-def oracle (c : Costs) (bruteMax : Nat) (r h : List Int) (fast : OptCell) : Except String OptInfo := do
+def oracle (c : Costs) (bruteMax : Nat) (r h : List Int) (fast : OptCell) (xcheck : Bool := true) :
+    Except String OptInfo := do
   let lo ← match fast.2.min? with | some v => pure v | none => throw "oracle: empty count set"
   let hi ← match fast.2.max? with | some v => pure v | none => throw "oracle: empty count set"
-  if fast.1 != dpDist c r h then throw "oracle: set-DP cost differs from dpDist"
+  if xcheck && fast.1 != dpDist c r h then throw "oracle: set-DP cost differs from dpDist"
   if r.length ≤ bruteMax && h.length ≤ bruteMax then
     if lev c r h != fast.1 then throw "oracle: lev differs from set-DP cost"
     match minEdits c r h, maxEdits c r h with
@@ -52,45 +62,56 @@ def oracle (c : Costs) (bruteMax : Nat) (r h : List Int) (fast : OptCell) : Exce
     | _, _ => throw "oracle: brute force found no optimal script"
   else pure ⟨fast.1, lo, hi, false⟩
 
-def infoJ (r h : List Int) (o : OptInfo) : Json :=
-  objJ [("lev", ratToJson o.cost), ("lev_unit", ratToJson (dpDist unitCosts r h)),
+def infoJ (r h : List Int) (o : OptInfo) (levUnit : Option Rat := none) : Json :=
+  objJ [("lev", ratToJson o.cost),
+        ("lev_unit", ratToJson (match levUnit with | some v => v | none => dpDist unitCosts r h)),
         ("min_edits", natJ o.lo), ("max_edits", natJ o.hi), ("brute", boolJ o.brute),
         ("ref_len", natJ r.length), ("hyp_len", natJ h.length)]
 
 /-- What the theorems say about the un-normalised model value `v` for the pair `(r, h)`. -/
-def assertModel (c : Costs) (r h : List Int) (o : OptInfo) (v : Rat) : Except String Unit := do
+def assertModel (c : Costs) (levUnit : Rat) (o : OptInfo) (v : Rat) : Except String Unit := do
   if useShortcut c then
-    if v != dpDist unitCosts r h then throw s!"model {ratToString v} != unit lev (C02_equal_costs)"
+    if v != levUnit then throw s!"model {ratToString v} != unit lev (C02_equal_costs)"
   else
     if !(decide ((o.lo : Rat) ≤ v) && decide (v ≤ (o.hi : Rat)) && v.den == 1) then
       throw s!"model {ratToString v} outside [{o.lo},{o.hi}] (C02_bounds)"
 
 /-- scalar: spec + assertion for one column -/
-def specScalar (cfg : Config Int) (bruteMax : Nat) (refc hypc : List Int) :
+def specScalar (cfg : Config Int) (bruteMax : Nat) (refc hypc : List Int) (big : Bool := false) :
     Except String Json := do
   let r := cut cfg.eos cfg.includeEos refc
   let h := cut cfg.eos cfg.includeEos hypc
   if r.length != seqLen cfg.eos cfg.includeEos refc || h.length != seqLen cfg.eos cfg.includeEos hypc then
     throw "cut length differs from seqLen (cut_length)"
   let o ← oracle cfg.costs bruteMax r h (optCounts cfg.costs r h)
-  let raw := errorRateCol { cfg with norm := false } refc hypc
-  assertModel cfg.costs r h o raw
-  pure (objJ [("ref_cut", listJ intJ r), ("hyp_cut", listJ intJ h), ("pair", infoJ r h o)])
+  let rawFast := errorRateColFast { cfg with norm := false } refc hypc
+  if !big && errorRateCol { cfg with norm := false } refc hypc != rawFast then
+    throw "one-pass model differs from the literal model (C02_fast_scalar)"
+  let raw := rawFast
+  let lu := dpDist unitCosts r h
+  assertModel cfg.costs lu o raw
+  pure (objJ [("ref_cut", listJ intJ r), ("hyp_cut", listJ intJ h), ("pair", infoJ r h o (some lu))])
 
-def specPrefix (cfg : Config Int) (bruteMax : Nat) (refc hypc : List Int) :
+def specPrefix (cfg : Config Int) (bruteMax : Nat) (refc hypc : List Int) (big : Bool := false) :
     Except String Json := do
   let r := cut cfg.eos cfg.includeEos refc
   let h := cut cfg.eos cfg.includeEos hypc
   let cells := optCountsPrefixes cfg.costs r h
-  let raw := prefixErrorRatesCol { cfg with norm := false } refc hypc
+  let raw := prefixErrorRatesColFast { cfg with norm := false } refc hypc
+  if !big && prefixErrorRatesCol { cfg with norm := false } refc hypc != raw then
+    throw "one-pass model differs from the literal model (C02_fast_prefix)"
+  -- big: unit-cost distance of every prefix from ONE pass (cost component of the proved
+  -- set-carrying DP under unit costs, C02_optCounts_prefixes) instead of one dpDist per prefix
+  let unitCells := if big then optCountsPrefixes unitCosts r h else []
   let reported := h.length + (if cfg.excludeLast then 0 else 1)
   let mut infos : List Json := []
   for k in List.range (h.length + 1) do
     let hk := h.take k
-    let o ← oracle cfg.costs bruteMax r hk (cells.getD k (0, []))
+    let o ← oracle cfg.costs bruteMax r hk (cells.getD k (0, [])) (!big)
+    let lu : Rat := if big then (unitCells.getD k (0, [])).1 else dpDist unitCosts r hk
     if k < reported && k < raw.length then
-      assertModel cfg.costs r hk o (raw.getD k 0)
-    infos := infos ++ [infoJ r hk o]
+      assertModel cfg.costs lu o (raw.getD k 0)
+    infos := infos ++ [infoJ r hk o (some lu)]
   pure (objJ [("ref_cut", listJ intJ r), ("hyp_cut", listJ intJ h), ("prefixes", Json.arr infos.toArray)])
 
 /-- case: {kind: "scalar"|"prefix", ref, hyp (nested, in the layout given by batch_first), N,
@@ -101,18 +122,25 @@ def c02Er : Handler := fun c => do
   let bf ← getBool c "batch_first"
   let N ← getNat c "N"
   let bruteMax ← getNat c "brute_max"
+  let big := match fieldOpt c "big" with
+    | some (.bool b) => b
+    | _ => false
   let refT ← field c "ref" >>= mat
   let hypT ← field c "hyp" >>= mat
   let refCols := toColumns bf N refT 0
   let hypCols := toColumns bf N hypT 0
   let flags := objJ [("shortcut", boolJ (useShortcut cfg.costs))]
   if kind == "scalar" then
-    let model := errorRateBatch cfg bf N refT hypT 0
-    let spec ← (List.zip refCols hypCols).mapM (fun (r, h) => specScalar cfg bruteMax r h)
+    let model := errorRateBatchFast cfg bf N refT hypT 0
+    if !big && errorRateBatch cfg bf N refT hypT 0 != model then
+      throw "one-pass batch model differs from the literal one (C02_fast_batch)"
+    let spec ← (List.zip refCols hypCols).mapM (fun (r, h) => specScalar cfg bruteMax r h big)
     pure (objJ [("model", listJ ratToJson model), ("spec", Json.arr spec.toArray), ("flags", flags)])
   else
-    let model := prefixErrorRatesBatch cfg bf N refT hypT 0
-    let spec ← (List.zip refCols hypCols).mapM (fun (r, h) => specPrefix cfg bruteMax r h)
+    let model := prefixErrorRatesBatchFast cfg bf N refT hypT 0
+    if !big && prefixErrorRatesBatch cfg bf N refT hypT 0 != model then
+      throw "one-pass batch model differs from the literal one (C02_fast_batch)"
+    let spec ← (List.zip refCols hypCols).mapM (fun (r, h) => specPrefix cfg bruteMax r h big)
     pure (objJ [("model", listJ (listJ ratToJson) model), ("spec", Json.arr spec.toArray),
                 ("flags", flags)])
 
@@ -132,6 +160,9 @@ def c02Mer : Handler := fun c => do
   let N ← getNat c "N"
   let M ← getNat c "M"
   let bruteMax ← getNat c "brute_max"
+  let big := match fieldOpt c "big" with
+    | some (.bool b) => b
+    | _ => false
   let subAvg ← getBool c "sub_avg"
   let red ← getStr c "reduction" >>= parseReduction
   let refDim ← getNat c "ref_dim"
@@ -141,7 +172,9 @@ def c02Mer : Handler := fun c => do
       let r2 ← field c "ref" >>= mat
       pure (repeatRef bf M r2))
     else field c "ref" >>= ten3
-  let elems := merElems cfg subAvg bf N M ref3 hyp w 0
+  let elems := merElemsFast cfg subAvg bf N M ref3 hyp w 0
+  if !big && merElems cfg subAvg bf N M ref3 hyp w 0 != elems then
+    throw "one-pass loss model differs from the literal one (C02_fast_mer)"
   let model := match reduce red elems with
     | .inl l => listJ (listJ ratToJson) l
     | .inr v => ratToJson v
@@ -159,7 +192,7 @@ def c02Mer : Handler := fun c => do
     let mut row : List Json := []
     for m in List.range M do
       let rc ← refSeq n m
-      let s ← specScalar cfg bruteMax rc (hypSeq n m)
+      let s ← specScalar cfg bruteMax rc (hypSeq n m) big
       row := row ++ [s]
     spec := spec ++ [Json.arr row.toArray]
   pure (objJ [("model", model), ("spec", Json.arr spec.toArray),
